@@ -39,6 +39,11 @@ def allCut (max : Nat) : List (Nat × Bytes) → List (Nat × Bytes) → Bool
   | g :: gs, w :: ws => cutOk max g w && allCut max gs ws
   | _, _ => false
 
+/-- the cut branch of `Pipeline.checkInputBytes` (pipeline/pipeline.go; its own model and tie are
+    C20's): data longer than `max` is cut to `max` bytes, the newline is kept -/
+def cutAtLimit (max : Nat) (data : Bytes) : Bytes :=
+  if data.length > max then data.take max ++ (if data.getLast? = some NL then [NL] else []) else data
+
 /-- the property oracle: do `calls` satisfy C06 for this content? -/
 def holds (cfg : Worker.Cfg) (skip : Bool) (base : Nat) (content : Bytes) (calls : List (Nat × Bytes)) : Bool :=
   let want := dropFirst skip (specLines content base [])
